@@ -8,4 +8,5 @@ scratch = "/tmp/verif_kani_dev/tree"
 os.makedirs(os.path.dirname(scratch), exist_ok=True)
 g = krun.all_groups(repo, "/tmp/verif_kani_dev/wire_gen"); g.pop("__wire_notes", None)
 krun.prepare_scratch(repo, list(g.values()), scratch)
+krun.refresh_dependency_builds(scratch, "/verif/.cache/kani_target")
 print(scratch)
